@@ -150,6 +150,56 @@ func (in *Interp) purePredicate(c *ast.CallExpr) ast.Expr {
 	return rs.Results[0]
 }
 
+// boundPredicate: a call X.m() without arguments of a method of another type of the runtime (a savepoint, a node)
+// whose body is a single `return <expr>` that only reads: a test given a name (p.pt.atEOF(), start.atEOF()). The
+// method's receiver is bound to the value of X for the evaluation of the returned expression; undo removes the binding.
+func (r *run) boundPredicate(s *State, c *ast.CallExpr) (ast.Expr, func()) {
+	in := r.in
+	sel, ok := c.Fun.(*ast.SelectorExpr)
+	if !ok || in.isP(sel.X) || len(c.Args) != 0 {
+		return nil, nil
+	}
+	selInfo := in.Info.Selections[sel]
+	if selInfo == nil || selInfo.Kind() != types.MethodVal {
+		return nil, nil
+	}
+	var fd *ast.FuncDecl
+	for _, d := range in.V.Funcs() {
+		if d.Recv != nil && d.Body != nil && in.Info.Defs[d.Name] == selInfo.Obj() {
+			fd = d
+		}
+	}
+	if fd == nil || len(fd.Body.List) != 1 || (fd.Type.Params != nil && len(fd.Type.Params.List) > 0) || len(fd.Recv.List) != 1 || len(fd.Recv.List[0].Names) != 1 {
+		return nil, nil
+	}
+	rs, ok := fd.Body.List[0].(*ast.ReturnStmt)
+	if !ok || len(rs.Results) != 1 {
+		return nil, nil
+	}
+	pure := true
+	ast.Inspect(rs.Results[0], func(n ast.Node) bool {
+		if ce, ok := n.(*ast.CallExpr); ok {
+			if id, isID := ce.Fun.(*ast.Ident); !isID || (id.Name != "len" && id.Name != "cap") {
+				pure = false
+			}
+		}
+		return true
+	})
+	recvObj := in.Info.Defs[fd.Recv.List[0].Names[0]]
+	if !pure || recvObj == nil {
+		return nil, nil
+	}
+	old, had := s.Env[recvObj]
+	s.Env[recvObj] = r.eval(s, sel.X)
+	return rs.Results[0], func() {
+		if had {
+			s.Env[recvObj] = old
+		} else {
+			delete(s.Env, recvObj)
+		}
+	}
+}
+
 // readOnlyMethod: the parser method stores nothing through its receiver, runs no code block and calls only
 // functions that are not parser methods (or parser methods that are read-only themselves) without handing them the
 // parser: whatever it returns, the parser is as it was.
@@ -1013,6 +1063,55 @@ func (r *run) call(s *State, c *ast.CallExpr) []outcome {
 				consts[i] = id.Name == "true"
 			}
 		}
+		// a boolean argument that is a pure test of the caller's state (`p.matchIf(!p.atEOF(), …)`): the helper is
+		// entered once with the test assumed true and the parameter known true, once with both false - what the test
+		// establishes (not at end of input) then holds inside the helper on the paths the parameter selects
+		split := -1
+		for i, a := range c.Args {
+			if _, known := consts[i]; known {
+				continue
+			}
+			if t := in.Info.TypeOf(a); t != nil {
+				if b, ok := t.Underlying().(*types.Basic); ok && b.Info()&types.IsBoolean != 0 {
+					pure := true
+					ast.Inspect(a, func(n ast.Node) bool {
+						if ce, ok := n.(*ast.CallExpr); ok && r.effectful(ce) {
+							pure = false
+						}
+						return true
+					})
+					if pure && in.summaryWith(sel.Sel.Name, consts) != nil {
+						split = i
+						break
+					}
+				}
+			}
+		}
+		if split >= 0 {
+			var out []outcome
+			okAll := true
+			v := r.cond(s, c.Args[split])
+			for _, val := range []bool{true, false} {
+				if val && v.IsFalse() || !val && v.IsTrue() {
+					continue
+				}
+				t := s.clone()
+				r.assume(t, c.Args[split], val)
+				cs := map[int]bool{split: val}
+				for k, b := range consts {
+					cs[k] = b
+				}
+				sum := in.summaryWith(sel.Sel.Name, cs)
+				if sum == nil || len(sum.Exits) == 0 {
+					okAll = false
+					break
+				}
+				out = append(out, r.applySummary(t, c, site, sum)...)
+			}
+			if okAll && len(out) > 0 {
+				return out
+			}
+		}
 		if sum := in.summaryWith(sel.Sel.Name, consts); sum != nil && len(sum.Exits) > 0 {
 			return r.applySummary(s, c, site, sum)
 		}
@@ -1454,6 +1553,10 @@ func (r *run) eval(s *State, e ast.Expr) Val {
 		if b := in.purePredicate(x); b != nil {
 			return r.eval(s, b)
 		}
+		if b, undo := r.boundPredicate(s, x); b != nil {
+			defer undo()
+			return r.eval(s, b)
+		}
 		if r.effectful(x) {
 			s.undecided("effectful call %s in expression position", in.exprText(x))
 			return Unk("call")
@@ -1603,6 +1706,10 @@ func (r *run) cond(s *State, e ast.Expr) Val {
 		if b := r.in.purePredicate(x); b != nil {
 			return r.cond(s, b)
 		}
+		if b, undo := r.boundPredicate(s, x); b != nil {
+			defer undo()
+			return r.cond(s, b)
+		}
 	case *ast.ParenExpr:
 		return r.cond(s, x.X)
 	case *ast.UnaryExpr:
@@ -1649,6 +1756,10 @@ func (r *run) falsityImpliesNotEOF(s *State, e ast.Expr) bool {
 		if b := in.purePredicate(x); b != nil {
 			return r.falsityImpliesNotEOF(s, b)
 		}
+		if b, undo := r.boundPredicate(s, x); b != nil {
+			defer undo()
+			return r.falsityImpliesNotEOF(s, b)
+		}
 	case *ast.ParenExpr:
 		return r.falsityImpliesNotEOF(s, x.X)
 	case *ast.BinaryExpr:
@@ -1689,6 +1800,10 @@ func (r *run) truthImpliesNotEOF(s *State, e ast.Expr) bool {
 	switch x := e.(type) {
 	case *ast.CallExpr:
 		if b := in.purePredicate(x); b != nil {
+			return r.truthImpliesNotEOF(s, b)
+		}
+		if b, undo := r.boundPredicate(s, x); b != nil {
+			defer undo()
 			return r.truthImpliesNotEOF(s, b)
 		}
 	case *ast.ParenExpr:
